@@ -22,7 +22,10 @@ import Model.Session
   Not modelled (the generator stays inside, the model answers `unsupported` otherwise): a publish
   that would block on the full queue of another *online* client, a processor blocked on an
   exhausted publish/subscribe token, wall-clock timeouts other than through the explicit
-  `tokenTimeout` stimulus.
+  `tokenTimeout` stimulus; a live dequeuer that finds every one of the 65535 packet ids in use by a
+  stored outgoing packet dies with `ErrPacketIDsExhausted` — the model accepts no delivery in such a
+  state (`acceptDelivery`) but has no transition for that death (it takes 65535 stored packets:
+  `MemorySession.freshID_ne_zero_of_lt`).
 -/
 
 abbrev ConnId := Nat
@@ -246,8 +249,8 @@ def backendTerminate (s : BState) (c : ConnId) : BState :=
                             else s.activeClients }
 
 /-- A dying dequeuer that holds a token may still take one queued message (Go `select` picks
-    freely between a ready queue and `Closing()`): it is stored as outgoing (QoS > 0 after capping;
-    the write then fails, so it shows up as a resend later) or lost (QoS 0). -/
+    freely between a ready queue and `Closing()`): it is stored as outgoing under an unused packet id
+    (QoS > 0 after capping; the write then fails, so it shows up as a resend later) or lost (QoS 0). -/
 def lastDequeue (s : BState) (c : ConnId) (x : BConn) : List BState :=
   if !(x.running ∧ x.deqHand) then [s] else
   match s.sessOf c with
@@ -257,8 +260,10 @@ def lastDequeue (s : BState) (c : ConnId) (x : BConn) : List BState :=
       let out := applyQOS b m
       if out.qos = 0 then s.setSessOf c b'
       else
-        let (nid, ms) := b'.sess.nextID
-        s.setSessOf c { b' with sess := ms.savePacket .outgoing (.publish out false nid) }
+        let (nid, ms) := b'.sess.freshID
+        -- no unused packet id (`ErrPacketIDsExhausted`): nothing is recorded, the message is lost like a QoS 0 one
+        if nid = 0 then s.setSessOf c { b' with sess := ms }
+        else s.setSessOf c { b' with sess := ms.savePacket .outgoing (.publish out false nid) }
     let fromStored : List BState :=
       match b.storedQ with
       | h :: rest => [take { b with storedQ := rest } h]
@@ -554,7 +559,7 @@ def ackSent (x : BConn) (cfg : Cfg) (p : Packet) : BConn :=
 
 /-- try to accept a delivery by the dequeuer: the message must be the head of the stored queue or
     a member of the first group of the temporary queue, capped with the subscription in force now,
-    carrying the session's next packet id -/
+    carrying the next packet id that no packet of the session's outgoing store uses (`Client.nextID`) -/
 def acceptDelivery (s : BState) (c : ConnId) (x : BConn) (b : BSess) (m : Message) (id : UInt16) :
     Option BState :=
   if !x.deqHand then none else
@@ -565,7 +570,9 @@ def acceptDelivery (s : BState) (c : ConnId) (x : BConn) (b : BSess) (m : Messag
       let x := retake { x with deqHand := false, deqChan := min s.cfg.window (x.deqChan + 1) }
       some ((s.setSessOf c b).setConn c x)
     else
-      let (nid, ms) := b.sess.nextID
+      let (nid, ms) := b.sess.freshID
+      -- no unused packet id: the dequeuer dies with `ErrPacketIDsExhausted` instead of delivering
+      if nid = 0 then none else
       if nid ≠ id then none else
       let ms := ms.savePacket .outgoing (.publish out false id)
       let x := retake { x with deqHand := false }
